@@ -43,7 +43,10 @@ def gen_hist(rng, cid):
         if o["kind"] in ("truncate", "write_diff"):
             o["arg"] = rng.below(4)
         ops.append(o)
-    return {"id": cid, "len": 1 + rng.below(6), "members": members, "ops": ops, "op": rng.choice(c08.OPS),
+    # isolated roots (dedupe --isolate, or inherited from the header): a sub-group is then ALL files under one
+    # root, so a changed file can sit anywhere inside a sub-group that is dropped as a whole
+    iso = rng.choice([[], [], [], ["r0", "r1"], ["r1", "r0"], ["r1"], ["r0"], ["r0/d", "r0", "r1"]])
+    return {"id": cid, "len": 1 + rng.below(6), "members": members, "ops": ops, "op": rng.choice(c08.OPS), "iso": iso,
             "nosize": rng.chance(1, 5), "prio": rng.choice([[], [], [4], [5], [10], [0], [4, 11]]),
             "n": rng.choice([None, None, 1, 2]), "format": rng.choice(["text", "json"]), "mlinks": rng.chance(1, 5)}
 
@@ -152,6 +155,28 @@ def examine(ctx, cases, res, mout, count=True):
             for o in case["ops"]:
                 ctx.bump("operation_kind@phase", "%s@%s" % (o["kind"], "before_report" if o["phase"] == 1 else "after_report"))
             ctx.bump("dedupe_op", case["op"])
+            ctx.bump("isolated_roots", len(case.get("iso", [])))
+            roots = case.get("iso", [])
+
+            def root_of(path):
+                for r in roots:
+                    if path == r or path.startswith(r + "/"):
+                        return r
+                return None
+            # position of every changed member inside its sub-group (isolated root, else hard-link set), report order
+            order = r["info"]["order"]
+            keyed = []
+            for j in order:
+                m = case["members"][j]
+                ro = root_of(m["path"])
+                keyed.append(("root", ro) if ro is not None else ("ino", m.get("hard_of", j)))
+            for o in case["ops"]:
+                pos = order.index(o["m"])
+                first = keyed.index(keyed[pos])
+                size = keyed.count(keyed[pos])
+                ctx.bump("changed_member_position_in_subgroup",
+                         "%s:%s:%s" % (keyed[pos][0], "single" if size == 1 else ("first" if first == pos else "non-first"),
+                                       "before_report" if o["phase"] == 1 else "after_report"))
             ctx.bump("no_check_size", case["nosize"])
             ctx.bump("report_format", case["format"])
             ctx.bump("commands_issued", cmds != "-")
@@ -246,18 +271,39 @@ def report(ctx, fails, model_bin, scratch):
             core.log("model/implementation disagreement on %d histories (first: %s)" % (len(corr), text[:300]))
 
 
+def directed_isolate_cases(start):
+    """a change AFTER the report on a non-first path of a multi-file isolated root (and of a hard-link set) that
+    would otherwise be dropped as a whole: every member of a sub-group must be checked, not its first path"""
+    out = []
+    cid = start
+    for op in c08.OPS:
+        for kind in ("write_same", "recreate_same", "touch"):
+            for victim in (2, 3):
+                out.append({"id": cid, "len": 4, "members": [{"path": "r0/a"}, {"path": "r1/b"}, {"path": "r1/c"}, {"path": "r1/d/e"}],
+                            "ops": [{"m": victim, "phase": 2, "kind": kind, "fill": 67}], "op": op, "iso": ["r0", "r1"],
+                            "nosize": False, "prio": [], "n": None, "format": "text", "mlinks": False})
+                cid += 1
+        # hard-link set b = c (one inode, shared mtime), change through the second name
+        out.append({"id": cid, "len": 4, "members": [{"path": "r0/a"}, {"path": "r1/b"}, {"path": "r1/c", "hard_of": 1}],
+                    "ops": [{"m": 2, "phase": 2, "kind": "write_same", "fill": 67}], "op": op, "iso": [],
+                    "nosize": False, "prio": [], "n": None, "format": "text", "mlinks": False})
+        cid += 1
+    return out
+
+
 K1_CASE = {"len": 4, "members": [{"path": "a"}, {"path": "b"}], "ops": [{"m": 1, "phase": 1, "kind": "write_same"}],
-           "op": "rm", "nosize": False, "prio": [], "n": None, "format": "text", "mlinks": False}
+           "op": "rm", "iso": [], "nosize": False, "prio": [], "n": None, "format": "text", "mlinks": False}
 
 
 def run(ctx):
     ctx.rule = ("histories driven through the real library in main.rs order: group_files ; phase-1 operations ; write_report ; "
                 "phase-2 operations ; dedupe(modified_before = header time stamp) ; run_script.  Groups of 2-5 equal files (optionally "
-                "a hard-link pair), 0-3 operations out of {rewrite same length / other length / same bytes, append, truncate, touch, "
+                "a hard-link pair; 5/8 of the histories with isolated roots so that several files share a sub-group), 0-3 operations out of {rewrite same length / other length / same bytes, append, truncate, touch, "
                 "unlink, recreate same length / other length / same bytes, replace by directory, fifo, dangling symlink, symlink to a "
                 "directory} each on any member in either phase, 5 dedupe ops, no_check_size, priorities, text/json report; one case = "
                 "one history; non-trivial = at least one operation and the dedupe run issued a command; distinct = distinct history "
-                "description.  The K1 history (same-length rewrite before write_report, then remove) is replayed on every run")
+                "description.  The K1 history (same-length rewrite before write_report, then remove) is replayed on every run; 35 directed histories change a "
+                "NON-FIRST path of a multi-file isolated root / hard-link set after the report")
     ctx.assumptions = ["ordinary operations stamp mtime := the time they happen (C04's proviso); the kernel's coarse clock may stamp up to "
                        "one tick (4 ms) EARLIER than the wall clock, so the harness keeps 10 ms between the report and the operations",
                        "nothing else touches the scratch tree",
@@ -279,6 +325,7 @@ def run(ctx):
     n = ctx.pick(600, 5000)
     cases = [dict(K1_CASE, id=0)]
     cases += [gen_hist(ctx.rng, i + 1) for i in range(n)]
+    cases += directed_isolate_cases(50000)
     if not ctx.quick:
         # bounded exhaustive: every (operation kind, phase, dedupe op) on a 3-member group, each member position
         cid = 100000
@@ -289,6 +336,7 @@ def run(ctx):
                         for nosize in (False, True):
                             cases.append({"id": cid, "len": 3, "members": [{"path": "r0/a"}, {"path": "r0/b"}, {"path": "r1/c"}],
                                           "ops": [{"m": m, "phase": phase, "kind": kind, "arg": 1}], "op": op, "nosize": nosize,
+                                          "iso": ["r1", "r0"] if cid % 2 else [],
                                           "prio": [], "n": None, "format": "text", "mlinks": False})
                             cid += 1
         ctx.extra["exhaustive_single_operation_histories"] = cid - 100000
